@@ -44,4 +44,33 @@ static int op_pull(int argc, char **argv, FILE *o) {
     hx_put_hex(o, m, rc == 0 ? (size_t) mlen : cap); fputc(' ', o); put_state(o, s);
     free(m); hx_free(&in); hx_free(&ad); return 0;
 }
-const hx_op ops_c09[] = { {"ss.init", op_init}, {"ss.setctr", op_setctr}, {"ss.rekey", op_rekey}, {"ss.push", op_push}, {"ss.pull", op_pull}, {NULL, NULL} };
+/* ss.pullx <slot> <chunk> <ad> <flags>: the optional-pointer call forms. flags: 1 = m == NULL (only for an empty message), 2 = mlen_p == NULL, 4 = tag_p == NULL.
+   A field whose pointer was NULL is printed as "x". */
+static int op_pullx(int argc, char **argv, FILE *o) {
+    int s, rc; buf_t in, ad; unsigned char *m, tag = 0x77; unsigned long long mlen = 12345; size_t cap; uint64_t fl;
+    if (argc != 4 || (s = get_slot(argv[0], 1)) < 0 || hx_hex(argv[1], &in)) return -1;
+    if (hx_hex(argv[2], &ad)) { hx_free(&in); return -1; }
+    if (hx_u64(argv[3], &fl) || fl > 7) { hx_free(&in); hx_free(&ad); return -1; }
+    cap = in.n >= 17 ? in.n - 17 : 0;
+    if ((fl & 1) && cap != 0) { hx_free(&in); hx_free(&ad); return -1; }
+    m = (unsigned char *) malloc(cap ? cap : 1); memset(m, 0x5c, cap);
+    rc = crypto_secretstream_xchacha20poly1305_pull(&slots[s], (fl & 1) ? NULL : m, (fl & 2) ? NULL : &mlen, (fl & 4) ? NULL : &tag, in.p, in.n, ad.n ? ad.p : NULL, ad.n);
+    fprintf(o, "%d ", rc);
+    if (fl & 2) fputs("x ", o); else fprintf(o, "%llu ", mlen);
+    if (fl & 4) fputs("x ", o); else fprintf(o, "%u ", (unsigned) tag);
+    hx_put_hex(o, m, cap); fputc(' ', o); put_state(o, s);
+    free(m); hx_free(&in); hx_free(&ad); return 0;
+}
+/* ss.pushx <slot> <tag> <m> <ad> <flags>: flags 1 = m == NULL (only for an empty message), 2 = outlen_p == NULL */
+static int op_pushx(int argc, char **argv, FILE *o) {
+    int s, rc; uint64_t tag, fl; buf_t m, ad; unsigned char *out; unsigned long long outlen = 12345;
+    if (argc != 5 || (s = get_slot(argv[0], 1)) < 0 || hx_u64(argv[1], &tag) || tag > 255 || hx_hex(argv[2], &m)) return -1;
+    if (hx_hex(argv[3], &ad)) { hx_free(&m); return -1; }
+    if (hx_u64(argv[4], &fl) || fl > 3 || ((fl & 1) && m.n != 0)) { hx_free(&m); hx_free(&ad); return -1; }
+    out = (unsigned char *) malloc(m.n + 17); memset(out, 0x5c, m.n + 17);
+    rc = crypto_secretstream_xchacha20poly1305_push(&slots[s], out, (fl & 2) ? NULL : &outlen, (fl & 1) ? NULL : m.p, m.n, ad.n ? ad.p : NULL, ad.n, (unsigned char) tag);
+    fprintf(o, "%d ", rc); if (!(fl & 2) && outlen != m.n + 17) fprintf(o, "OUTLEN=%llu ", outlen);
+    hx_put_hex(o, out, m.n + 17); fputc(' ', o); put_state(o, s);
+    free(out); hx_free(&m); hx_free(&ad); return 0;
+}
+const hx_op ops_c09[] = { {"ss.pullx", op_pullx}, {"ss.pushx", op_pushx}, {"ss.init", op_init}, {"ss.setctr", op_setctr}, {"ss.rekey", op_rekey}, {"ss.push", op_push}, {"ss.pull", op_pull}, {NULL, NULL} };
